@@ -433,3 +433,38 @@ func (c *Cond) Broadcast() {
 	c.released = c.next
 	s.park("cond.broadcast", nil)
 }
+
+// OnceFunc, OnceValue and OnceValues replace the sync functions of the same
+// names: the first call runs f (other callers park until it is done), every
+// call returns its results; a panic of f is repeated for every caller.
+func OnceFunc(f func()) func() {
+	var once Once
+	var p any
+	var panicked bool
+	return func() {
+		once.Do(func() {
+			defer func() {
+				if r := recover(); r != nil {
+					p, panicked = r, true
+				}
+			}()
+			f()
+		})
+		if panicked {
+			panic(p)
+		}
+	}
+}
+
+func OnceValue[T any](f func() T) func() T {
+	var v T
+	g := OnceFunc(func() { v = f() })
+	return func() T { g(); return v }
+}
+
+func OnceValues[T1, T2 any](f func() (T1, T2)) func() (T1, T2) {
+	var v1 T1
+	var v2 T2
+	g := OnceFunc(func() { v1, v2 = f() })
+	return func() (T1, T2) { g(); return v1, v2 }
+}
